@@ -353,6 +353,8 @@ func (c *Ctx) panicFreedom(rule string, fns []*ssa.Function) (nOb, nOK int) {
 		plain := core.NewLin(c.P, fn, mods, sum)
 		var withPre, withPre2 *core.Lin
 		unexported := !token.IsExported(fn.Name()) && fn.Parent() == nil && len(c.P.CallSitesOf(fn)) > 0
+		var withCtx *core.Lin
+		nImported := 0
 		for _, ob := range obs {
 			nOb++
 			key := fkey(fn) + ":" + ob.kind + ":" + ob.what
@@ -391,6 +393,19 @@ func (c *Ctx) panicFreedom(rule string, fns []*ssa.Function) (nOb, nOK int) {
 				if ob.prove(withPre2) {
 					nOK++
 					R.OK(rule, key, c.at(ob.in), "run-time check cannot fail: "+ob.kind+" "+ob.what, "E-LIN with the lifted preconditions (int parameters >= 0, slice parameters non-empty): "+withPre2.Last)
+					continue
+				}
+			}
+			// a private function with one caller: what the caller has established at the call holds on entry
+			if site := c.onlyCaller(fn); site != nil {
+				if withCtx == nil {
+					withCtx = core.NewLin(c.P, fn, mods, sum)
+					callerLin := core.NewLin(c.P, site.Parent(), mods, sum)
+					nImported = withCtx.ImportCallContext(callerLin, site)
+				}
+				if nImported > 0 && ob.prove(withCtx) {
+					nOK++
+					R.OK(rule, key, c.at(ob.in), "run-time check cannot fail: "+ob.kind+" "+ob.what, sprintf("E-LIN with %d fact(s) the only caller %s establishes at the call: %s", nImported, fkey(site.Parent()), withCtx.Last))
 					continue
 				}
 			}
@@ -518,4 +533,28 @@ func (c *Ctx) slotAssertions(rule string) {
 		}
 	}
 	R.Floor(rule, "non-comma-ok type assertions on context slots", n, 4)
+}
+
+// onlyCaller returns the single call site of a private function: unexported, not a closure, exactly one static
+// call site, and no other incoming edge in the CHA call graph (so it cannot be reached through an interface or a
+// function value).
+func (c *Ctx) onlyCaller(fn *ssa.Function) ssa.CallInstruction {
+	if fn == nil || fn.Parent() != nil || token.IsExported(fn.Name()) {
+		return nil
+	}
+	sites := c.P.CallSitesOf(fn)
+	if len(sites) != 1 {
+		return nil
+	}
+	if _, isGo := sites[0].(*ssa.Go); isGo {
+		return nil
+	}
+	if n := c.P.CHA().Nodes[fn]; n != nil {
+		for _, e := range n.In {
+			if e.Site != sites[0] {
+				return nil
+			}
+		}
+	}
+	return sites[0]
 }
